@@ -467,7 +467,7 @@ where
         }
     }
     let tape = if rs.is_empty() { "-".to_string() } else { rs.iter().map(|s| hex_of_big(&big_of_sc::<G>(s))).collect::<Vec<_>>().join(",") };
-    let sp_arg = match c.sp { Some(s) => s.to_string(), None => "none".into() };
+    let sp_arg = match c.sp { Some(s) => format!("{s:x}"), None => "none".into() };
     let mres = m.call("c09.encrypt", &[cv.into(), c.key.clone(), hex_of_big(&big_of_sc::<G>(&x)), hx(&label), sp_arg, hx(&seed32), tape]);
     let real = match &res {
         Ok(Ok(_)) => "V".to_string(),
@@ -578,7 +578,16 @@ pub fn run(kv: &Args) -> i32 {
     // case table: x kinds x labels x security parameters x keys x rng kinds
     let labels = [0usize, 1, 32, 1024];
     let sps_ok = [None, Some(128), Some(129), Some(200), Some(256)];
-    let sps_bad = [Some(0usize), Some(127), Some(257), Some(65536)];
+    // refused parameters: the neighbours of the window, and values that fall INTO the window once narrowed to 8, 16, 32
+    // ... bits (a range check made after an `as u16`-style conversion accepts them)
+    let mut sps_bad: Vec<Option<usize>> = vec![Some(0usize), Some(1), Some(64), Some(127), Some(257), Some(258), Some(300),
+        Some(511), Some(512), Some(65535), Some(65536), Some(usize::MAX), Some(usize::MAX - 127), Some(usize::MAX / 2 + 129)];
+    for sh in [8usize, 16, 24, 32, 40, 48, 56, 63] {
+        for off in [0usize, 127, 128, 129, 200, 255, 256, 257] {
+            let v = (1usize << sh).wrapping_add(off);
+            if !(128..=256).contains(&v) { sps_bad.push(Some(v)); }
+        }
+    }
     let n_ok = kv.u64("cases", if thorough { 110 } else { 12 }) as usize;   // per curve
     let mut cases = vec![];
     for i in 0..n_ok {
